@@ -248,7 +248,7 @@ class Gen:
         elif t == "f32":
             prods = ["arith", "arith", "unary", "builtin_f", "conv", "select", "call", "leaf", "dot"]
         elif t == "bool":
-            prods = ["cmp", "cmp", "logic", "not", "leaf", "any_all", "select"]
+            prods = ["cmp", "cmp", "logic", "not", "leaf", "any_all", "select", "idconv"]
         elif is_vec(t):
             prods = ["varith", "cons", "vbuiltin", "select", "leaf", "leaf", "vcmp" if t[2] == "bool" else "varith", "matvec" if t[2] == "f32" else "cons"]
         else:
@@ -295,7 +295,11 @@ class Gen:
             if f == "clamp":
                 return self.fclamp(env, t, d)
             return {"e": "builtin", "f": f, "args": [self.expr(env, t, d) for _ in range(n)]}
+        if p == "idconv":
+            return {"e": "conv", "t": t, "a": self.expr(env, t, d)}
         if p == "conv":
+            if rng.chance(1, 6):
+                return {"e": "conv", "t": t, "a": self.expr(env, t, d)}      # identity conversion: i32(i), f32(x), bool(b)
             src = rng.choice([s for s in SCALARS if s != t and (s != "f32" or self.o["floats"])])
             a = self.expr(env, src, d)
             if src == "f32" and t in ("i32", "u32") and self.o["f2i_safe"]:
@@ -617,9 +621,17 @@ class Gen:
                 return [{"s": "assign", "l": l, "e": self._safe_div(op, t, l, t, rhs)}]
             return [{"s": "compound", "op": op, "l": l, "e": rhs}]
         if c == "if":
-            return [{"s": "if", "c": self.expr(env, "bool", d - 1),
-                     "then": self.block(env, rng.range(1, 3), depth - 1, in_loop, ret_t, in_switch, allow_return),
-                     "else": self.block(env, rng.range(0, 2), depth - 1, in_loop, ret_t, in_switch, allow_return)}]
+            st = {"s": "if", "c": self.expr(env, "bool", d - 1),
+                  "then": self.block(env, rng.range(1, 3), depth - 1, in_loop, ret_t, in_switch, allow_return),
+                  "else": self.block(env, rng.range(0, 2), depth - 1, in_loop, ret_t, in_switch, allow_return)}
+            if rng.chance(1, 3):
+                # `else if` continuation (rendered as such): its condition and arms are where a traversal that only
+                # follows plain else blocks loses references
+                st["else"] = [{"s": "if", "c": self.expr(env, "bool", d - 1),
+                               "then": self.block(env, rng.range(1, 2), depth - 1, in_loop, ret_t, in_switch, allow_return),
+                               "else": st["else"]}]
+                st["elif"] = True
+            return [st]
         if c == "switch":
             st = rng.choice(["i32", "u32"])
             sel = {"e": "bin", "op": "%", "a": self.expr(env, st, d - 2), "b": lit(st, 5)}
@@ -1014,6 +1026,9 @@ def render_stmt(s, ind):
     if k == "if":
         out = ["%sif %s {" % (p, render_expr(s["c"]))] + render_block(s["then"], ind + 1)
         if s["else"]:
+            if s.get("elif") and len(s["else"]) == 1 and s["else"][0].get("s") == "if":
+                inner = render_stmt(s["else"][0], ind)
+                return out + ["%s} else %s" % (p, inner[0].lstrip())] + inner[1:]
             out += ["%s} else {" % p] + render_block(s["else"], ind + 1)
         return out + ["%s}" % p]
     if k == "switch":
